@@ -25,6 +25,15 @@ CLAIMS = {
             "Trusted: Python container semantics, the abstract evaluator. Not decided: arithmetic exceptions on degenerate *values* "
             "(e.g. invert(0, p) for a crafted off-curve point), which need value reasoning.",
             "DESIGN.md section 3 C18"),
+    "C03": ("other", "abstract evaluation on the empty batch + symbolic structural induction over tree levels (polynomial step identities) + predicate-region equivalence",
+            "Decides: CheckGCD/CheckGCDN1/BatchGCD on the empty batch (no definite exception, empty/False result); the product tree is built over "
+            "set(values) and the result re-expanded over the input through a value-keyed dict; the level step of ExtendedProductTree satisfies "
+            "T_parent = T_L*P_R + T_R*P_L and P_parent = P_L*P_R as polynomial identities with children paired (2k, 2k+1), the unpaired node carried "
+            "on odd levels, base T = 1, root returned; the remainder tree's child i reads parent i // 2 and reduces only modulo its own node value; "
+            "leaf gcds zipped position-wise; verdict predicates equal `gcd != 1` and `gcd >= bound` on all regions, default bound 2^128; "
+            "the recorded factor is the tested gcd. Together with the lemma T = sum(P/v) == P/v (mod v) this is the exactness argument for every batch shape.",
+            "Trusted: Python slice/zip semantics, gmpy2.gcd, the congruence lemma. It is an induction over tree levels read from the code, not a run on any batch.",
+            "DESIGN.md section 3 C03"),
     "C16": ("other", "typestate / who-may-write analysis over the AST + symbolic path walk of all 24 Check bodies",
             "Decides, for every path of every Check body in the package, that each loop iteration records exactly one "
             "result entry on that iteration's artifact with an entry created in the same iteration, that the positive flag, "
